@@ -1,6 +1,6 @@
 (* C05 — per-block 30% limit on voting-power change for safe SetPower. *)
 From stdpp Require Import gmap.
-Require Import Model.Base Model.Validate Model.State Model.Staking Model.Slashing Model.Poa Model.App proofs.L1Effects proofs.InvHistory proofs.InvTotal.
+Require Import Model.Base Model.Validate Model.State Model.Staking Model.Slashing Model.Poa Model.App proofs.L1Effects proofs.InvHistory proofs.InvTotal proofs.InvCometTotal.
 
 (* a safe SetPower above height 1 succeeds only if the running sum (its own change included) is below
    30% of the cached total *)
@@ -58,3 +58,23 @@ Theorem C05_limit_base_is_previous_block_total : forall g bs b c1 txs,
   cached_power (poa (fst (deliver_txs c1 txs))) = tsum (last_pow (stk (w_chain w))) /\
   last_pow (stk (fst (deliver_txs c1 txs))) = last_pow (stk (w_chain w)).
 Proof. exact cached_total_is_previous_set_total. Qed.
+
+(* ... and that sum is the total voting power of the validator set CometBFT holds (the set the previous block's updates
+   produced): the base of the 30 % test is the true total of the previous block's validator set *)
+Theorem C05_last_total_is_the_total_power_of_comets_set : forall g bs,
+  wf_genesis g ->
+  let w := run_world (init_world g) bs in
+  w_halted w = None -> last_total (stk (w_chain w)) = tsum (c_next (w_comet w)).
+Proof. exact reachable_comet_total. Qed.
+
+Theorem C05_limit_base_is_the_total_power_of_comets_set : forall g bs b c1 txs,
+  wf_genesis g ->
+  let w := run_world (init_world g) bs in
+  w_halted w = None -> 0 < height (w_chain w) ->
+  begin_block (with_clock (w_chain w) (height (w_chain w) + 1) (now (w_chain w) + b_dt b))
+              (match c_prev (w_comet w) with Some vs => sorted_votes vs | None => [] end) (b_absent b) (b_evidence b) = inl c1 ->
+  cached_power (poa (fst (deliver_txs c1 txs))) = tsum (c_next (w_comet w)).
+Proof.
+  intros g bs b c1 txs Hg w Hh Hht Eb. destruct (cached_total_is_previous_set_total g bs b c1 txs Hg Hh Hht Eb) as [H _].
+  rewrite H. transitivity (last_total (stk (w_chain w))); [symmetry; exact (reachable_TL g bs Hg Hh)|exact (reachable_comet_total g bs Hg Hh)].
+Qed.
